@@ -2,7 +2,7 @@
    what the real tsm1.Compactor / FileStore / DefaultPlanner did; [check_case] compares it
    with the model (agree) and evaluates the executable spec on the IMPLEMENTATION's
    observation (spec_ok).  Result codes as in BUILDING.md.  Must not import Proofs. *)
-From Verif Require Export Shard.Store C09.Model.
+From Verif Require Export Shard.Store C09.Model C09.Blocks C09.Planner.
 From VerifGen Require Import Consts.
 Open Scope Z_scope.
 
@@ -439,6 +439,137 @@ Definition spec_plan (fs : list tsmfile) (groups : list (list name)) : bool :=
                     Nat.eqb (length grp) (length g) &&
                     hyp_okb fs grp [(fst ms, (snd ms + 1)%N)]) groups.
 
+(* ---------- block level: the real tsmBatchKeyIterator against Blocks.merge_key ---------- *)
+
+(* an input file with its block layout: generation, sequence, per key id the blocks, the
+   tombstones that were written (declared), and what the real TSMReader reports after opening
+   the file: TombstoneRange(key) per key id and the key ids it dropped from its index *)
+Definition bfile := (N * N * list (N * list (list tv)) * list (N * (Z * Z)) * list (N * list (Z * Z)) * list N)%type.
+
+Definition bf_name (f : bfile) : name := match f with (g, s, _, _, _, _) => (g, s) end.
+
+Fixpoint nassoc {A} (d : A) (i : N) (l : list (N * A)) : A :=
+  match l with
+  | [] => d
+  | (j, x) :: r => if (i =? j)%N then x else nassoc d i r
+  end.
+
+(* the file as layer A sees it: blocks concatenated, declared tombstones *)
+Definition bf_tsm (keys : list key) (f : bfile) : tsmfile :=
+  match f with
+  | (g, s, data, tombs, _, _) =>
+      {| f_gen := g; f_seq := s;
+         f_data := map (fun kv => (nth (N.to_nat (fst kv)) keys [], concat (snd kv))) data;
+         f_tombs := map (fun kt => (nth (N.to_nat (fst kt)) keys [], snd kt)) tombs |}
+  end.
+
+(* what the BlockIterator of the file hands to the merge for key id [ki] *)
+Definition bf_input (ki : N) (f : bfile) : list (list tv) * list (Z * Z) :=
+  match f with
+  | (_, _, data, _, et, del) =>
+      (if existsb (N.eqb ki) del then [] else nassoc [] ki data, nassoc [] ki et)
+  end.
+
+Definition bf_raw (ki : N) (f : bfile) : list (list tv) :=
+  match f with (_, _, data, _, _, _) => nassoc [] ki data end.
+
+Definition pick_bgroup (fs : list bfile) (g : list name) : list bfile :=
+  flat_map (fun n => filter (fun f => name_eqb (bf_name f) n) fs) g.
+
+Fixpoint kid_of (keys : list key) (k : key) (i : N) : N :=
+  match keys with
+  | [] => i
+  | k0 :: r => if key_eqb k0 k then i else kid_of r k (i + 1)%N
+  end.
+
+Definition blk_inputs (grp : list bfile) (ki : N) : key_input := map (bf_input ki) grp.
+
+(* the block stream of the whole compaction: keys ascending, per key the model's blocks;
+   the flag is false when the model ran out of fuel / got stuck for some key *)
+Definition model_block_stream (keys : list key) (fast : bool) (size : nat) (grp : list bfile)
+  : bool * list (key * block) :=
+  fold_right (fun k acc =>
+                match merge_key fast size (blk_inputs grp (kid_of keys k 0%N)) with
+                | Some os => (fst acc, map (fun o => (k, o_vals o)) os ++ snd acc)
+                | None => (false, snd acc)
+                end)
+             (true, []) (group_keys (map (bf_tsm keys) grp)).
+
+Definition oblock_eqb (a b : oblock) : bool := entry_eqb (fst a) (fst b) && tvs_eqb (snd a) (snd b).
+Definition ofile_eqb (a b : ofile) : bool :=
+  name_eqb (fst a) (fst b) &&
+  list_eqb (fun x y => key_eqb (fst x) (fst y) && list_eqb oblock_eqb (snd x) (snd y)) (snd a) (snd b).
+
+Definition model_blocks (keys : list key) (size : Z) (fast : bool) (grp : list bfile) : bool * list ofile :=
+  let st := model_block_stream keys fast (eff_size size) grp in
+  let ms := max_gen_seq (map (bf_tsm keys) grp) in
+  (fst st, model_ofiles (fst ms) (snd ms) (split_files c09_max_index_entries [] None 0%N (snd st))).
+
+Definition agree_blocks (keys : list key) (size : Z) (fast : bool) (grp : list bfile) (err : N) (outs : list ofile) : bool :=
+  let m := model_blocks keys size fast grp in
+  (err =? 0)%N && fst m && list_eqb ofile_eqb (snd m) outs.
+
+(* all observed blocks of key k over the output files, in file order *)
+Definition obs_blocks (outs : list ofile) (k : key) : list oblock :=
+  flat_map (fun o => flat_map (fun kb => if key_eqb (fst kb) k then snd kb else []) (snd o)) outs.
+
+(* an output block larger than size must be one of the key's input blocks, unchanged *)
+Definition is_input_block (grp : list bfile) (ki : N) (b : list tv) : bool :=
+  existsb (fun f => existsb (tvs_eqb b) (fst (bf_input ki f))) grp.
+
+(* the real reader's view of the tombstones removes exactly what the written tombstones remove *)
+Definition reader_tombs_okb (keys : list key) (grp : list bfile) : bool :=
+  forallb (fun f =>
+    forallb (fun ki =>
+      let inp := bf_input ki f in
+      tvs_eqb (file_values (bf_tsm keys f) (nth (N.to_nat ki) keys []))
+              (apply_tr (snd inp) (concat (fst inp))))
+      (map fst (match f with (_, _, data, _, _, _) => data end))) grp.
+
+Definition spec_blocks (keys : list key) (size : Z) (grp : list bfile) (err : N) (outs : list ofile) : bool :=
+  let tsm := map (bf_tsm keys) grp in
+  (err =? 0)%N
+  && reader_tombs_okb keys grp
+  (* value-wise: per key the concatenation of the output blocks is the logical merge *)
+  && forallb (fun k => tvs_eqb (concat (map snd (obs_blocks outs k))) (merged_values tsm k)) keys
+  (* index entries describe their blocks; blocks non-empty, time-sorted, non-overlapping *)
+  && forallb (fun o =>
+       forallb (fun kb => negb (Nat.eqb (length (snd kb)) 0) &&
+                          forallb (fun b => entry_eqb (fst b) (entry_of (snd b)) && negb (Nat.eqb (length (snd b)) 0)) (snd kb)) (snd o)
+       && chain (fun a b => negb (key_eqb a b)) (map fst (snd o))
+       && chain point_ltb (flat_points (strip (snd o)))
+       && entries_okb c09_max_index_entries (strip (snd o))) outs
+  && forallb (fun k => chain point_ltb (map (fun x => (k, fst x)) (concat (map snd (obs_blocks outs k))))) keys
+  (* <= size points unless passed through unchanged *)
+  && forallb (fun o => forallb (fun kb =>
+       forallb (fun b => Nat.leb (length (snd b)) (eff_size size)
+                         || is_input_block grp (kid_of keys (fst kb) 0%N) (snd b)) (snd kb)) (snd o)) outs.
+
+(* ---------- the real DefaultPlanner.PlanLevel against Planner.plan_level ---------- *)
+
+Definition to_pstat (x : N * N * bool * bool) : pstat :=
+  match x with (g, s, t, u) => {| p_gen := g; p_seq := s; p_tomb := t; p_inuse := u |} end.
+
+Definition in_nameb (n : name) (l : list name) : bool := existsb (name_eqb n) l.
+
+(* what compact_preserves_reads_contiguous needs of a planned group, decided on file names:
+   the group is made of files that exist and are not being compacted, is listed in file
+   order, holds whole generations, and no other file lies between two of its members *)
+Definition group_okb (stats : list pstat) (g : list name) : bool :=
+  negb (Nat.eqb (length g) 0)
+  && forallb (fun n => existsb (fun p => name_eqb (pname p) n && negb (p_inuse p)) stats) g
+  && chain name_ltb g
+  && forallb (fun p => negb (existsb (fun n => (fst n =? p_gen p)%N) g) || in_nameb (pname p) g) stats
+  && forallb (fun p => in_nameb (pname p) g
+                       || forallb (fun n => name_ltb (pname p) n) g
+                       || forallb (fun n => name_ltb n (pname p)) g) stats.
+
+Definition spec_planlevel (stats : list pstat) (groups : list (list name)) : bool :=
+  forallb (group_okb stats) groups && nodup_names (concat groups).
+
+Definition agree_planlevel (stats : list pstat) (force : bool) (level : N) (groups : list (list name)) : bool :=
+  list_eqb (list_eqb name_eqb) (plan_level force stats level) groups.
+
 (* ---------- cases (kid = index into the key table) ---------- *)
 
 Definition rfile := (N * N * list (N * list tv) * list (N * (Z * Z)))%type.
@@ -462,7 +593,14 @@ Inductive case :=
           (err : N) (outs : list rofile) (live : list name) (tmp : N) (before after : rreads)
 (* a group planned by the real DefaultPlanner and then compacted: no hypothesis on the group *)
 | CPlanned (keys : list key) (size : Z) (fast : bool) (lo hi : Z) (fs : list rfile) (group : list name)
-           (err : N) (before : rreads) (outs : list rofile) (after : rreads).
+           (err : N) (before : rreads) (outs : list rofile) (after : rreads)
+(* block level: input files with their block layout and the reader's tombstone view; the
+   observed output blocks are compared block by block with Blocks.merge_key *)
+| CBlk (keys : list key) (size : Z) (fast : bool) (fs : list bfile) (group : list name)
+       (err : N) (outs : list rofile)
+(* one call of the real DefaultPlanner.PlanLevel(level): FileStore.Stats() as (generation,
+   sequence, has tombstone, in use by an unreleased plan) and the groups it returned *)
+| CPlanLevel (stats : list (N * N * bool * bool)) (force : bool) (level : N) (groups : list (list name)).
 
 Definition resolve (keys : list key) (kid : N) : key := nth (N.to_nat kid) keys [].
 
@@ -560,4 +698,11 @@ Definition check_case (c : case) : N :=
                   co_outs := map (to_ofile keys) outs; co_after := to_reads keys after |} in
       code (Nat.eqb (length before) (length keys) && Nat.eqb (length after) (length keys) && agree_compact i o)
            (spec_planned i o)
+  | CBlk keys size fast fs group err outs =>
+      let grp := pick_bgroup fs group in
+      let os := map (to_ofile keys) outs in
+      code (agree_blocks keys size fast grp err os) (spec_blocks keys size grp err os)
+  | CPlanLevel stats force level groups =>
+      let st := map to_pstat stats in
+      code (agree_planlevel st force level groups) (spec_planlevel st groups)
   end.
